@@ -42,7 +42,7 @@ DELIVERABLES (create the directory {W}/out):
   * {W}/out/patch.diff  -- output of `git -C {W} diff` restricted to the pylatexenc/ directory (the change only; do not commit),
   * {W}/out/demo.py -- a small standalone program that exits with status 1 (printing what went wrong) when run against the CHANGED library and exits 0 against the unchanged library. It must be runnable as
         PYTHONPATH=<library root> /venv/bin/python -B {W}/out/demo.py
-     Verify both directions yourself (use `git stash` or a second checkout to test the unchanged library, then restore your change),
+     Verify both directions yourself. To test the unchanged library make a pristine copy inside your own directory (`mkdir {W}/pristine && git -C {W} archive HEAD | tar -x -C {W}/pristine`, then PYTHONPATH={W}/pristine) and delete it afterwards; do NOT use `git stash` (the stash is shared with other worktrees of the same repository),
   * {W}/out/notes.txt -- 5-10 lines: what you changed, why it breaks the property, and exactly what is needed for it to manifest.
 
 Leave the working tree with your change applied (uncommitted). Keep the change minimal (ideally 1-10 lines). Finish by printing the contents of notes.txt and the patch.
